@@ -22,28 +22,38 @@ Names    == {"unset", "match", "mismatch"}   \* CAServerName: empty / the name i
 AllCfgs == [role : Roles, verify : BOOLEAN, ownCert : BOOLEAN, ca : CaKinds, name : Names]
 Cfgs    == {c \in AllCfgs : c.role = "server" => c.name # "mismatch"}    \* a server never compares the name
 
-Classes  == {"valid",        \* leaf issued by CA-A, in date, EKU clientAuth+serverAuth, SAN = the "match" name
-             "selfsigned",   \* self-signed leaf
-             "otherCA",      \* leaf issued by CA-B
-             "sameNameCA",   \* leaf issued by a foreign CA that carries CA-A's subject name (matches the CA hint)
-             "expired",      \* leaf issued by CA-A, notAfter in the past
-             "wrongEKU",     \* leaf issued by CA-A, EKU codeSigning only
-             "none"}         \* no certificate
+\* what the peer presents in a TLS handshake (its tls.Certificate: the leaf first, then whatever else it ships)
+TlsClasses == {"valid",        \* leaf issued by CA-A, in date, EKU clientAuth+serverAuth, SAN = the "match" name
+               "validchain",   \* the same kind of leaf FOLLOWED BY CA-A's certificate
+               "selfsigned",   \* self-signed leaf
+               "selfsigned2",  \* a self-signed leaf sent twice (leaf, then itself as its own "issuer")
+               "otherCA",      \* leaf issued by CA-B
+               "otherCAchain", \* leaf issued by CA-B followed by CA-B's certificate (the peer ships its own trust anchor)
+               "sameNameCA",   \* leaf issued by a foreign CA that carries CA-A's subject name (matches the CA hint)
+               "expired",      \* leaf issued by CA-A, notAfter in the past
+               "wrongEKU",     \* leaf issued by CA-A, EKU codeSigning only
+               "none"}         \* no certificate
+\* "plaintext": a peer that does not speak TLS at all (raw bytes / raw yamux / plaintext gRPC on the TCP connection)
+Classes  == TlsClasses \cup {"plaintext"}
 SendModes == {"always",      \* client peer presents its certificate regardless of the server's CA hint
               "hint"}        \* client peer obeys certificate_authorities (stock crypto/tls client behaviour)
 Versions == {"tls12", "tls13"}
 \* the server name a client peer puts into its ClientHello: none, the name in the proxy's own certificate, a name that certificate
 \* does not cover.  No decision - property or code - reads it: a server admits by the CLIENT's certificate only.
 Snis == {"none", "own", "foreign"}
-Creds(role) == [class : Classes, send : IF role = "server" THEN SendModes ELSE {"always"}, ver : Versions,
-                sni : IF role = "server" THEN Snis ELSE {"none"}]
+TlsCreds(role) == [class : TlsClasses, send : IF role = "server" THEN SendModes ELSE {"always"}, ver : Versions,
+                   sni : IF role = "server" THEN Snis ELSE {"none"}]
+PlainCred == [class |-> "plaintext", send |-> "always", ver |-> "-", sni |-> "none"]
+Creds(role) == TlsCreds(role) \cup {PlainCred}
 
 \* ---- facts about the credentials (true by construction of the certificate factory)
-IssuedByA(k)   == k \in {"valid", "expired", "wrongEKU"}
+IssuedByA(k)   == k \in {"valid", "validchain", "expired", "wrongEKU"}    \* the LEAF is signed by CA-A's key
 Expired(k)     == k = "expired"
 UsageOk(k)     == k # "wrongEKU"
-Presents(k)    == k # "none"
-HintMatches(k) == k \in {"valid", "expired", "wrongEKU", "sameNameCA"}    \* issuer name = CA-A's subject name
+SpeaksTls(k)   == k # "plaintext"
+Presents(k)    == k \notin {"none", "plaintext"}
+\* some certificate of what the peer ships names CA-A as its issuer (CertificateRequestInfo.SupportsCertificate)
+HintMatches(k) == k \in {"valid", "validchain", "expired", "wrongEKU", "sameNameCA"}
 
 \* ---- PROPERTY level -------------------------------------------------------
 \* TLS is configured at all (TLSConfig.IsEnabled's documented meaning); otherwise the endpoint is plaintext and
@@ -52,10 +62,13 @@ TlsConfigured(cfg) == cfg.ownCert \/ cfg.name # "unset"
 ChainsTo(cfg, cred) == cfg.ca = "caA" /\ IssuedByA(cred.class)
 NameMatches(cfg) == cfg.name = "match"
 \* DESIGN 3.7: explicitly disabling verification is the only way to relax
+\* (it relaxes the certificate check, not the encryption: a peer that does not speak TLS is never acceptable to an
+\* endpoint with TLS configured).  Only what the configuration named counts as a trust anchor - never what the peer ships.
 Acceptable(cfg, cred) ==
-  \/ ~cfg.verify
-  \/ /\ ChainsTo(cfg, cred) /\ ~Expired(cred.class) /\ UsageOk(cred.class)
-     /\ (cfg.role = "client" => NameMatches(cfg))
+  /\ SpeaksTls(cred.class)
+  /\ \/ ~cfg.verify
+     \/ /\ ChainsTo(cfg, cred) /\ ~Expired(cred.class) /\ UsageOk(cred.class)
+        /\ (cfg.role = "client" => NameMatches(cfg))
 \* a CA bundle without a CA certificate must be refused when the endpoint is built
 MustRejectStartup(cfg) == TlsConfigured(cfg) /\ cfg.verify /\ cfg.ca \in {"leafOnly", "garbage"}
 \* configurations an operator may legitimately write: for these an acceptable peer MUST get through
@@ -64,6 +77,13 @@ WellFormedCfg(cfg) ==
   /\ cfg.role = "server" => cfg.ownCert /\ (cfg.verify => cfg.ca = "caA")
   /\ cfg.role = "client" => cfg.ca \in {"none", "caA"} /\ (cfg.verify => cfg.name # "unset")
 WellFormed(cfg, cred) == WellFormedCfg(cfg) /\ (cfg.role = "client" => Presents(cred.class))
+\* what happens to the endpoint's files AFTER it started and before the peer dials: nothing / the CA bundle file
+\* disappears (rotation gone wrong, unmounted secret).  No decision reads it: the configuration was valid when the
+\* endpoint was built, so still only acceptable peers may get through.  Enumerated where a bundle file exists and the
+\* endpoint is one an operator would run.
+Afters == {"intact", "caRemoved"}
+Removable(cfg) == WellFormedCfg(cfg) /\ cfg.ca # "none"
+Envs(cfg) == IF Removable(cfg) THEN Afters ELSE {"intact"}
 
 \* ---- CODE level -----------------------------------------------------------
 \* encryption/tls.go:GetServerTLSConfig / GetClientTLSConfig, certificate.go:fetchCACert / validateHasCA
@@ -79,10 +99,12 @@ Sends(cred) == Presents(cred.class) /\ (cred.send = "always" \/ HintMatches(cred
 ChainChecks(cred) == IssuedByA(cred.class) /\ ~Expired(cred.class) /\ UsageOk(cred.class)
 \* fix = FALSE: the pinned tree -- tls.RequireAnyClientCert + VerifyPeerCertificate that returns nil
 \* fix = TRUE : proposed/C19-clientauth.diff -- tls.RequireAndVerifyClientCert against ClientCAs
-\* (only evaluated for CodeStartup(cfg) = "ready", hence verify => ca = "caA" on the server)
+\* (only evaluated for CodeStartup(cfg) = "ready", hence verify => ca = "caA" on the server).  The tls.Config is built
+\* once: what happens to the files afterwards (Afters) is not an argument.
 CodeAdmits(fix, cfg, cred) ==
   IF cfg.role = "server"
   THEN /\ cfg.ownCert                                                      \* no certificate: every handshake fails
+       /\ SpeaksTls(cred.class)                                            \* tls.Server on every accepted connection
        /\ \/ ~cfg.verify                                                   \* tls.NoClientCert
           \/ Sends(cred) /\ (fix => ChainChecks(cred))
   ELSE /\ Presents(cred.class)
